@@ -56,25 +56,61 @@ def paidOK (propFee paid : Int) (ms : List Msg) : Bool := decide (required propF
 /-- `100 · v / t < cap` for a cap given as a raw sdk.Dec integer, as an exact integer inequality -/
 def shareBelow (cap v t : Int) : Bool := decide (100 * (Dec.P : Int) * v < cap * t)
 
-/-- clauses 2 and 3 on one message, against the state the transaction starts from -/
-def bodyOK (minCommission cap : Int) (env : StakeEnv) : Body → Bool
-  | .other => true
+/-- clause 2 on one message -/
+def commissionOK (minCommission : Int) : Body → Bool
   | .createVal r => decide (minCommission ≤ r)
-  | .editVal none => true
   | .editVal (some r) => decide (minCommission ≤ r)
+  | _ => true
+
+/-- clause 3 on one message, against the stake as it will be when the message executes: the state
+    the transaction starts from plus what its earlier messages (`p`) add -/
+def capOK (cap : Int) (env : StakeEnv) (p : Pending) : Body → Bool
   | .delegate v amt =>
     match env.tokens v with
     | none => true
-    | some tok => shareBelow cap (tok + amt) (env.total + amt)
+    | some tok => shareBelow cap (tok + (p.get v + amt)) (env.total + (p.total + amt))
   | .redelegate src dst amt =>
     match env.tokens dst with
     | none => true
-    | some tok => shareBelow cap (tok + (if src = dst then 0 else amt)) env.total
+    | some tok => shareBelow cap (tok + (p.get dst + (if src = dst then 0 else amt))) (env.total + p.total)
+  | _ => true
+
+/-- what an executed message adds -/
+def stepPending (env : StakeEnv) (p : Pending) : Body → Pending
+  | .delegate v amt =>
+    match env.tokens v with
+    | none => p
+    | some _ => p.add v amt amt
+  | .redelegate src dst amt =>
+    match env.tokens dst with
+    | none => p
+    | some _ => p.add dst (if src = dst then 0 else amt) 0
+  | _ => p
+
+/-- every (re)delegation of the list, in execution order, stays below the cap -/
+def seqCapOK (cap : Int) (env : StakeEnv) : Pending → List Leaf → Bool
+  | _, [] => true
+  | p, l :: ls => capOK cap env p l.body && seqCapOK cap env (stepPending env p l.body) ls
+
+def finalPending (env : StakeEnv) : Pending → List Leaf → Pending
+  | p, [] => p
+  | p, l :: ls => finalPending env (stepPending env p l.body) ls
+
+/-- after the whole transaction: no validator that received stake through it holds the cap or more -/
+def endOK (cap : Int) (env : StakeEnv) (p : Pending) : Bool :=
+  p.byVal.all (fun e =>
+    match env.tokens e.1 with
+    | none => true
+    | some tok => shareBelow cap (tok + p.get e.1) (env.total + p.total))
 
 /-- clauses 2 and 3: an accepted transaction contains, at any nesting depth, no validator
-    creation/edit below the minimum commission and no (re)delegation reaching the cap -/
+    creation/edit below the minimum commission; every (re)delegation, judged against the stake as it
+    will be when it executes, stays below the cap; and so does every validator once all of them ran -/
 def stakingOK (accepted : Bool) (minCommission cap : Int) (env : StakeEnv) (ms : List Msg) : Bool :=
-  !accepted || (leavesList ms).all (fun l => bodyOK minCommission cap env l.body)
+  !accepted ||
+    ((leavesList ms).all (fun l => commissionOK minCommission l.body) &&
+     seqCapOK cap env Pending.empty (leavesList ms) &&
+     endOK cap env (finalPending env Pending.empty (leavesList ms)))
 
 /-- executed effects -/
 def commissionEffectOK (minCommission rate : Int) : Bool := decide (minCommission ≤ rate)
